@@ -1,7 +1,7 @@
 (** C01 - Parent and children links always describe one consistent forest.
     Only statements; proofs are [exact <lemma of Proofs/>]. *)
 Require Import AT.Model.Base AT.Model.Heap AT.Model.Mutate AT.Spec.MutSpec.
-Require AT.Proofs.MutInv AT.Proofs.MutHistory AT.Proofs.MutParent AT.Proofs.MutDelRun.
+Require AT.Proofs.MutInv AT.Proofs.MutHistory AT.Proofs.MutParent AT.Proofs.MutDelRun AT.Proofs.MutSetRun.
 Import AT.Proofs.MutInv AT.Proofs.MutHistory.
 
 (** One step: ANY call (the three assignments and the constructors), with ANY
@@ -68,7 +68,21 @@ Proof.
 Qed.
 Print Assumptions C01_assertions_parent_del.
 
-(** Not yet proved in full (kept visible): under [Inv] no internal assertion fires, so
+(** ... and so does the assertion of the children setter on every accepted call *)
+Theorem C01_assertions_children : forall typed fu n xs s,
+  let h := heap_of s in
+  Inv h -> n < length h -> NoDup xs ->
+  (forall x, In x xs -> x < length h /\ x <> n /\ ~ In x (ancestors_of h n)) ->
+  set_children typed true no_faults (S fu) n (CList (map VNode xs)) s
+  = set_children typed false no_faults (S fu) n (CList (map VNode xs)) s.
+Proof.
+  intros typed fu n xs s h I Hn ND B.
+  rewrite (MutSetRun.set_children_run typed true fu n xs s I Hn ND B),
+          (MutSetRun.set_children_run typed false fu n xs s I Hn ND B). reflexivity.
+Qed.
+Print Assumptions C01_assertions_children.
+
+(** Not yet proved in full (kept visible: calls with hook faults): under [Inv] no internal assertion fires, so
     ANYTREE_ASSERTIONS on/off behave identically.  The correspondence check
     evaluates it on every explored call (no AssertionError observed; the
     assertion-on interpreter agrees with the model). *)
